@@ -24,6 +24,9 @@ func solvencyCheck(x *engine.Exec, ref *rewRef) []engine.Failure {
 		if ref.Tainted {
 			return "payout-uses-current-token-value"
 		}
+		if anyRoundedUp(s) {
+			return "payout-on-rounded-up-token-amount"
+		}
 		for _, vs := range s.Vals {
 			for _, t := range vs.Tokens {
 				// the per-token index has 18 decimals and is rounded half-up: with >= 1e18 tokens on a validator one index update
